@@ -15,6 +15,28 @@ func gj(name, entry string, n int, expect ...string) Job {
 	return Job{Name: name, Pkg: "gtree", Entry: entry, N: n, Expect: expect}
 }
 
+// gjf: tree-level job with the file-system model and the element-level path contracts (path.Join, fs.ValidPath).
+func gjf(name, entry string, n int, expect ...string) Job {
+	return Job{Name: name, Pkg: "gtree", Entry: entry, N: n, Expect: expect, FSModel: true}
+}
+
+const pathContract = "path.Join / filepath.Join / fs.ValidPath / strings.HasSuffix,TrimSuffix,ContainsAny on opaque names replaced by element-level contracts (names are single valid path elements: non-empty, no '/', not '.' or '..', no NUL); the contracts are discharged on the real std code at byte level by the L-path job of C07"
+const fsModel = "os.Stat/MkdirAll/Create and os.DirFS+fs.WalkDir answered by a file-system model written in Go in the harness (harness/gtree/vfs_sym.go) and executed symbolically; the model's reading of the OS is trusted and exercised against the real OS by the witness replays (harness/gtree/vfs_native.go)"
+const encStub = "encoding/json, yaml.v3, go-toml encoders are stubs that render the {value, children} record they are given in one Write; quoting/escaping of names by those libraries is outside the claim (exercised by the native replays, which decode the real bytes with the real decoders)"
+
+var (
+	filesProg = []string{"gtree/common.go", "gtree/progtree.go", "gtree/encode.go", "gtree/encode_sym.go", "gtree/encode_native.go"}
+	filesVFS  = []string{"gtree/vfs_sym.go", "gtree/vfs_native.go"}
+)
+
+func files(groups ...[]string) []string {
+	var out []string
+	for _, g := range groups {
+		out = append(out, g...)
+	}
+	return out
+}
+
 func allChecks() []*Check {
 	return []*Check{
 		{
@@ -42,6 +64,76 @@ func allChecks() []*Check {
 			},
 			Bounds: "documents of N rows (quick 5, thorough 7): item depths in [0, prev+2] (the first indented row of a document defines the unit, so its depth is 1), at most one row of class no-bullet/empty-text at any position and depth; routes: iterator output, non-iterator output, walk (generate() shared with mkdir/verify). After the first offending row one more row is generated. Outside: several malformed rows, jumps by more than 2 (same code path), massive mode (C10).",
 			Assume: append([]string{parseContract}, commonAssume...),
+		},
+		{
+			ID:    "C03",
+			Files: files(filesProg, filesVFS, []string{"gtree/c03.go"}),
+			Quick: []Job{
+				gjf("C03.pairs.n5", "VerifC03", 5, "C03.add", "C03.text", "C03.text.ref", "C03.enc", "C03.walk", "C03.iter", "C03.alias.output", "C03.alias.walk", "C03.alias.iter"),
+				gjf("C03.reject.n3", "VerifC03Reject", 3, "C03.reject.err", "C03.reject.nowrite", "C03.reject.nocallback", "C03.reject.nofs"),
+			},
+			Thorough: []Job{
+				gjf("C03.pairs.n7", "VerifC03", 7, "C03.add", "C03.text", "C03.text.ref", "C03.enc", "C03.walk", "C03.iter", "C03.alias.output", "C03.alias.walk", "C03.alias.iter"),
+				gjf("C03.reject.n4", "VerifC03Reject", 4, "C03.reject.err", "C03.reject.nowrite", "C03.reject.nocallback", "C03.reject.nofs"),
+			},
+			Bounds: "programs of NewRoot + (N-1) Add calls (quick N=5, thorough N=7) on solver-chosen parents with names that may coincide; operation pairs From-Root vs From-Markdown: text with 4 opaque branch strings, JSON/YAML/TOML records, callback walk facts, iterator walk; every deprecated alias next to its replacement; nil / non-root arguments on all 10 From-Root entry points. mkdir/verify pairs are decided under C06/C08 (VerifC06Root, VerifC08 both families). Outside: names that are not single path elements (C07), massive mode (C10).",
+			Assume: append([]string{parseContract, pathContract, fsModel, encStub}, commonAssume...),
+		},
+		{
+			ID:    "C04",
+			Files: files(filesProg, []string{"gtree/c04.go"}),
+			Quick: []Job{
+				gj("C04.md.n5", "VerifC04", 5, "C04.nil", "C04.iso", "C04.order.count"),
+				gj("C04.root.n5", "VerifC04Root", 5, "C04.root.nil", "C04.root.iso"),
+			},
+			Thorough: []Job{
+				gj("C04.md.n7", "VerifC04", 7, "C04.nil", "C04.iso", "C04.order.count"),
+				gj("C04.root.n7", "VerifC04Root", 7, "C04.root.nil", "C04.root.iso"),
+			},
+			Bounds: "forests of N rows / programs of N nodes (quick 5, thorough 7), opaque names, equal sibling names merged; JSON, YAML, TOML (TOML single root); both simple routes and From-Root: the record handed to each Encode call is isomorphic to the reference forest (names, child order, nesting; nil and empty children equivalent), one Encode per root in input order. Outside the solver's claim: the bytes produced by the three encoder libraries (quoting of hostile names); they are only exercised, on the solver's models, by the native replays with a decode-and-compare oracle.",
+			Assume: append([]string{parseContract, encStub}, commonAssume...),
+		},
+		{
+			ID:    "C05",
+			Files: files(filesProg, []string{"gtree/c05.go"}),
+			Quick: []Job{
+				gjf("C05.walk.n5", "VerifC05", 5, "C05.name", "C05.branch", "C05.row", "C05.level", "C05.path", "C05.haschild", "C05.stop.err", "C05.stop.count", "C05.stop.nomore", "C05.all", "C05.nil"),
+				gjf("C05.iter.n5", "VerifC05Iter", 5, "C05.iter.row", "C05.iter.path", "C05.iter.level", "C05.iter.nomore", "C05.iter.stop.count", "C05.iter.stop.err", "C05.iter.all"),
+			},
+			Thorough: []Job{
+				gjf("C05.walk.n7", "VerifC05", 7, "C05.name", "C05.branch", "C05.row", "C05.level", "C05.path", "C05.haschild", "C05.stop.err", "C05.stop.count", "C05.stop.nomore", "C05.all", "C05.nil"),
+				gjf("C05.iter.n7", "VerifC05Iter", 7, "C05.iter.row", "C05.iter.path", "C05.iter.level", "C05.iter.nomore", "C05.iter.stop.count", "C05.iter.stop.err", "C05.iter.all"),
+			},
+			Bounds: "forests of N rows (callback form from Markdown, 4 opaque branch strings) and programs of N nodes (From-Root callback, iterator and deprecated iterator forms), quick N=5, thorough N=7; callback failing / consumer breaking out at every visit index (symbolic) or never. Outside: massive mode (C10), names that are not single path elements.",
+			Assume: append([]string{parseContract, pathContract}, commonAssume...),
+		},
+		{
+			ID:    "C13",
+			Files: files(filesProg, []string{"gtree/c13.go"}),
+			Quick: []Job{
+				gj("C13.hist.n4", "VerifC13", 4, "C13.add", "C13.fn", "C13.idem", "C13.md", "C13.nil", "C13.end"),
+			},
+			Thorough: []Job{
+				gj("C13.hist.n5", "VerifC13", 5, "C13.add", "C13.fn", "C13.idem", "C13.md", "C13.nil", "C13.end"),
+			},
+			Bounds: "sequential histories of N steps (quick 4, thorough 5) plus a final operation on every live tree, over at most two live trees: Add on any node of any tree, creation of the second tree, an unrelated From-Markdown call, a From-Root operation (one kind per history: text, callback walk, iterator walk, JSON) executed twice in a row. Outside: histories split across goroutines (no memory model), mkdir/verify as history steps, longer histories.",
+			Assume: append([]string{parseContract, encStub}, commonAssume...),
+		},
+		{
+			ID:    "C14",
+			Files: files(filesProg, []string{"gtree/c14.go"}),
+			Quick: []Job{
+				gjf("C14.reader.n4", "VerifC14Reader", 4, "C14.reader.nonnil", "C14.reader.is"),
+				gjf("C14.writer.n4", "VerifC14Writer", 4, "C14.writer.reported/text", "C14.writer.reported/encode", "C14.writer.reported/dryrun", "C14.writer.complete/text", "C14.writer.complete/encode", "C14.writer.nospurious/dryrun"),
+				gjf("C14.rootwriter.n4", "VerifC14WriterRoot", 4, "C14.rootwriter.reported/text", "C14.rootwriter.reported/encode", "C14.rootwriter.reported/dryrun", "C14.rootwriter.complete/text"),
+			},
+			Thorough: []Job{
+				gjf("C14.reader.n6", "VerifC14Reader", 6, "C14.reader.nonnil", "C14.reader.is"),
+				gjf("C14.writer.n6", "VerifC14Writer", 6, "C14.writer.reported/text", "C14.writer.reported/encode", "C14.writer.reported/dryrun", "C14.writer.complete/text", "C14.writer.complete/encode", "C14.writer.nospurious/dryrun"),
+				gjf("C14.rootwriter.n6", "VerifC14WriterRoot", 6, "C14.rootwriter.reported/text", "C14.rootwriter.reported/encode", "C14.rootwriter.reported/dryrun", "C14.rootwriter.complete/text"),
+			},
+			Bounds: "well-formed forests of N rows / programs of N nodes (quick 4, thorough 6). Reader: fails with a fresh error after k delivered rows, k symbolic in 0..N, routes iterator/non-iterator text, JSON, YAML, dry-run, walk. Writer: refuses write number j, j symbolic in 0..N (N = past the last write: never), modes text (both routes), JSON, YAML, TOML (single root), dry-run report, From-Root text (fused printer), From-Root JSON, MkdirFromRoot dry-run report on color.Output. Short writes that return a nil error violate io.Writer's contract and are not modelled. Massive mode: C11.",
+			Assume: append([]string{parseContract, pathContract, encStub, "fatih/color under NoColor (Sprint is concatenation); bufio.Writer modelled as buffer + one Write at Flush"}, commonAssume...),
 		},
 	}
 }
